@@ -3,10 +3,10 @@ import re
 from vlib import core
 
 PROP = 'C17'
-MODULES = ['PistacheModel.Props.C17']
+MODULES = ['PistacheModel.Props.C17', 'PistacheModel.Props.C16Date']
 THEOREMS = ['Pistache.Cookie.Props.' + t for t in (
     'attrStep_item', 'attrLoop_items', 'cookie_roundtrip', 'jar_from_header', 'jarAdd_wf', 'jar_iteration_complete', 'jar_pairs_exact')] + \
-    ['Pistache.Cookie.itCollect_all']
+    ['Pistache.Cookie.itCollect_all'] + ['Pistache.Date.Props.' + t for t in ('parse_write', 'write_injective')]
 
 def hx(b):
     if isinstance(b, str): b = b.encode('latin-1')
